@@ -461,6 +461,13 @@ func runC20(c *Ctx) {
 		ts, _ := sv.(*ssa.Call)
 		if ts == nil || !extFn(ts.Common(), "strings", "TrimSpace") {
 			bad = "SrcSymbol is not strings.TrimSpace(...)"
+		} else if sl, ok := ts.Common().Args[0].(*ssa.Slice); ok {
+			// comment.Text[len(directive):] under the HasPrefix test is the same string
+			b, fl, okf := loadedField(sl.X)
+			lo, okLo := constInt64(sl.Low)
+			if sl.Low == nil || !okLo || lo != int64(len(directive)) || sl.High != nil || !okf || fl.Name() != "Text" || b != commentV {
+				bad = "SrcSymbol is not the text of the matched comment with the directive removed"
+			}
 		} else if tp, ok := ts.Common().Args[0].(*ssa.Call); !ok || !extFn(tp.Common(), "strings", "TrimPrefix") {
 			bad = "SrcSymbol does not strip the directive with strings.TrimPrefix"
 		} else {
